@@ -80,9 +80,20 @@ class CGen:
             return base, "int(%s) > %d" % (st, base["k"])
         return base, "int(%s) <= %d" % (st, base["k"])
 
+    def rcmp2(self, scopevars):
+        """a comparison of two symbols (typically one bound by a quantifier and one free)"""
+        rnd = self.rnd
+        kind = rnd.choice(["intle", "intlt", "streq", "strne"])
+        s1, s2 = self.rsel(scopevars), self.rsel([])
+        t1, t2 = self.sel_text(s1), self.sel_text(s2)
+        text = {"intle": "int(%s) <= int(%s)", "intlt": "int(%s) < int(%s)", "streq": "str(%s) == str(%s)", "strne": "str(%s) != str(%s)"}[kind] % (t1, t2)
+        return {"f": "cmp2", "kind": kind, "sel": s1, "sel2": s2}, text
+
     def rleaf(self, scopevars):
         rnd = self.rnd
         r = rnd.random()
+        if r < 0.15:
+            return self.rcmp2(scopevars)
         if r < 0.6:
             return self.ratom(scopevars)
         if r < 0.75:
